@@ -229,6 +229,15 @@ def run_traffic(sc):
                 return r
             sess.get_listener_instance = slow_get
             start_barrier = threading.Barrier(threads)
+        if sc.get('burst'):
+            # a backlog of notifications nobody has taken yet (replay / slow consumer), before any request is issued
+            k = sc['burst']
+            texts = [notif_text(state['notifs_sent'] + i + 1) for i in range(k)]
+            state['notifs_sent'] += k
+            bt = threading.Thread(target=emit, args=(srv, texts), daemon=True)     # a server's writes never wait for our client
+            bt.start()
+            bt.join(5)
+            time.sleep(0.3)
         fl = threading.Thread(target=flusher, daemon=True)
         fl.start()
         calls = []
